@@ -92,6 +92,7 @@ def make_line_oracle():
         if op[0] == "new":
             state.clear()
             state["max"] = max(1, int(op[4]))
+            state["mc"] = max(1, int(op[2]))
             state["L"] = max(1, int(op[10]))
             state["pend"] = {}
             state["cmax"] = {}
@@ -118,10 +119,14 @@ def make_line_oracle():
         if op[0] in ("rsend", "rdrop") and base != "none":
             state["rl"].pop((op[1], op[2]), None)
         if op[0] in ("respond", "rloan") and base == "err:loan:ExceedsMaxLoans":
-            # fewer response loans of this active request outstanding than the server allows: a loan counter got
-            # stuck (fixed by 1fb407e: must not come back)
+            # fewer response loans of this active request outstanding than the server allows per request, and fewer
+            # loans of the whole server outstanding than its sender allows (per-request limit x max active requests x
+            # max clients; loans kept beyond the drop of their active request still count): a loan counter got stuck
+            # (fixed by 1fb407e: must not come back)
+            ml = state["ml"].get(op[1], 2)
             out = sum(1 for (s, _), a in state["rl"].items() if s == op[1] and a == op[2])
-            if out < state["ml"].get(op[1], 2):
+            total = sum(1 for (s, _) in state["rl"] if s == op[1])
+            if out < ml and total < ml * state["max"] * state["mc"]:
                 return "line:loan-counter-stuck-after-failed-allocation"
         if op[0] in ("send", "qloan") and base == "err:loan:ExceedsMaxLoans":
             if len(state["ql"].get(op[1], ())) < state["L"]:
@@ -335,23 +340,30 @@ def run(ctx):
 
 RULE = ("real Client / Server ports of a request-response service driven through the public API, one call per line: create/drop client (max_active_requests "
         "option) and server (max_loaned_responses_per_request option), loan+write+send request (pending response kept), Server::receive (active request "
-        "kept), loan+write+send response, drop of active request / pending response / response / client / server in any order (objects outlive their "
-        "ports), PendingResponse::receive / is_connected / has_response / set_disconnect_hint, ActiveRequest::is_connected / has_disconnect_hint, "
+        "kept), loan+write+send response, the same in two steps (qloan / qsend / qdrop of a kept RequestMut, rloan / rsend / rdrop of a kept ResponseMut: "
+        "several loans outstanding, sent in any order, also after the active request was dropped), drop of active request / pending response / response / "
+        "client / server in any order (objects outlive their ports), PendingResponse::receive / is_connected / has_response / set_disconnect_hint, ActiveRequest::is_connected / has_disconnect_hint, "
         "Server::has_requests, update_connections; services with max clients 0..3, max servers 0..2, max active requests 0..3, response buffer 0..3, "
-        "max borrowed responses 0..3, max loaned requests 0..2, safe overflow for requests / responses on/off, fire-and-forget on/off, expired-connection "
-        "buffers 1..3, strategy DiscardData; local and ipc variants. exhaustive: every sequence of 3 (quick) / 4 (thorough) calls from a 15-call alphabet "
+        "max borrowed responses 0..3, max loaned requests 0..5, max loaned responses per request 0..5, safe overflow for requests / responses on/off, fire-and-forget on/off, expired-connection "
+        "buffers 1..3, strategy DiscardData; local and ipc variants. exhaustive: every sequence of 3 (quick) / 4 (thorough) calls from a 19-call alphabet "
         "after a fixed prefix, 4 configurations; random: mostly-valid histories from a generator that guesses the state; saturation: limits kept full, "
-        "answered requests whose responses are never fetched; churn: clients that come, send and go completely while servers still hold their requests. "
+        "answered requests whose responses are never fetched; churn: clients that come, send and go completely while servers still hold their requests; loans: two-step calls favoured, small buffers, loan limits "
+        "3..5; preloan: k samples loaned up front (k around and beyond the completion-queue capacity buffer + max borrowed + 1), then sent one at a time while "
+        "the other side receives and releases each, responses and requests, also with the active request dropped first; wrap: for every small channel count "
+        "(max servers 1..2 x max active 1..2 x max loaned 1..2, client limit below the service limit) the server keeps the first active request while the "
+        "client cycles through all its channel ids until a new request reuses channel 0, then connected / aconnected / respond / recvresp / dactive in random "
+        "order, also with responses in flight on the reused channel; fixed scenarios of both classes with the expected answers. "
         "Every result (values, origins, recipient counts, error kinds, panics) compared with the L1 model; harness oracles independent of the model: "
         "book of who sent which tag for which request (wrong pending response / twice / out of order / wrong origin), canary re-read of everything held, "
-        "limit counters; line oracle: loan refused for lack of memory inside the limits. distinct = distinct output vectors of cases with > 2 ops")
+        "limit counters; line oracles: loan refused for lack of memory inside the limits, loan refused with ExceedsMaxLoans below the loan limit. distinct = distinct output vectors of cases with > 2 ops")
 
 ASSUME = ["every API call is one atomic step of the L1 model (concurrency below this level: C03, C09, C13)",
           "chunk contents travel with the queue entry in the model: contents of a chunk do not change between send and release (C02's subject; the harness "
           "re-reads every held request / response after every call)",
           "request ids do not wrap (counter modulo 2^62 in the code, unbounded in the model)",
           "u64 payloads, static data segments, backpressure strategy DiscardData (the blocking strategies spin on the same try_send)",
-          "loan and send of a request / response happen in one step (no outstanding RequestMut / ResponseMut between calls)",
+          "a kept loan is written and sent in one step (write_payload + send of the RequestMutUninit / ResponseMutUninit; the initialized-but-unsent state is "
+          "not a separate step)",
           "disconnect visibility (d) is proved for the connections in the dropping port's storage at the time of the drop and by request-id uniqueness; "
           "that a closed channel word stays closed across later re-connections is not proved - it is checked (executable predicate `s1ok` in Driver/ReqRes.lean: a response "
           "channel carries a request id only while a pending response of the receiving client owns channel and id) on every model state the differential run reaches"]
